@@ -18,7 +18,9 @@ RULE = ("per flavour and instruction class: every value of every operand field (
         "boundary lattice of 32-bit integers) against an all-zero and an all-distinct background, all pairs of "
         "fields over reduced domains, full products of shapes up to the tier's size limit; all 65536 app ids and "
         "all 65536 version byte pairs; all sequences of length 0..3 over one representative per operand shape and "
-        "one sequence of length 1000; a case is (flavour, [(mnemonic, operand leaves)], app id, version); distinct = "
+        "one sequence of length 1000; every sequence of up to 3 (quick) / 5 (thorough) operations on one Subroutine object "
+        "(encode, len, str, set app id, replace / edit the instruction list, instantiate) followed by encode -> decode against "
+        "the object's final state; a case is (flavour, [(mnemonic, operand leaves)], app id, version); distinct = "
         "distinct such tuples, non-trivial = at least one operand/header field non-zero")
 ASSUMPTIONS = ["operands are taken inside their encodable ranges (out-of-range operands are C16's business)",
                "32-bit integers are covered on the boundary lattice {+-2^k, +-2^k+-1}, not all 2^32 values; field "
@@ -210,15 +212,101 @@ def shard_seq(shard):
     return part
 
 
+# --------------------------------------------------------------------------- object histories
+# The property quantifies over subroutines, and a Subroutine object is mutable (app_id / instructions setters, in-place list
+# edits, instantiate): every state such an object can be brought into must encode to bytes that decode to *that* state, also
+# when it was encoded, measured or printed before.  All operation sequences up to the tier's depth are enumerated.
+HIST_OPS = ["bytes", "len", "str", "cstructs", "app=0", "app=65535", "instrs=A", "instrs=B", "instrs=[]", "append", "setitem0",
+            "instantiate"]
+
+
+def run_history(flav: str, ops: Sequence[str], part) -> None:
+    from netqasm.lang.parsing.binary import deserialize
+    from netqasm.lang.subroutine import Subroutine
+    classes = {c.mnemonic: c for c in codec.live_classes(flav)}
+    reps = representatives(flav)
+
+    def mk(i):
+        m, lv = reps[i % len(reps)]
+        return codec.make_instr(classes[m], codec.live_operand_kinds(classes[m]), lv)
+
+    case = {"flavour": flav, "history": list(ops)}
+    model_app, model_instrs = 7, [mk(0)]
+    try:
+        sub = Subroutine(instructions=list(model_instrs), app_id=7, netqasm_version=(1, 2))
+        for op in ops:
+            if op == "bytes":
+                bytes(sub)
+            elif op == "len":
+                len(sub)
+            elif op == "str":
+                str(sub)
+            elif op == "cstructs":
+                sub.cstructs
+            elif op.startswith("app="):
+                model_app = int(op[4:])
+                sub.app_id = model_app
+            elif op == "instrs=A":
+                model_instrs = [mk(1), mk(2)]
+                sub.instructions = list(model_instrs)
+            elif op == "instrs=B":
+                model_instrs = [mk(3)]
+                sub.instructions = list(model_instrs)
+            elif op == "instrs=[]":
+                model_instrs = []
+                sub.instructions = []
+            elif op == "append":
+                model_instrs = model_instrs + [mk(4)]
+                sub.instructions.append(mk(4))
+            elif op == "setitem0":
+                if model_instrs:
+                    model_instrs = [mk(5)] + model_instrs[1:]
+                    sub.instructions[0] = mk(5)
+            elif op == "instantiate":
+                model_app = 3
+                sub.instantiate(3, {})
+        dec = deserialize(bytes(sub), codec.flavour(flav))
+    except Exception as exc:
+        add_violation(part, f"history-raises/{flav}", f"{type(exc).__name__}: {exc}", case)
+        return
+    if dec.app_id != model_app:
+        add_violation(part, f"history/{flav}/app_id", f"after {list(ops)} the subroutine has app id {model_app} but its bytes decode "
+                      f"to app id {dec.app_id}", case)
+    if tuple(dec.netqasm_version) != (1, 2):
+        add_violation(part, f"history/{flav}/version", f"after {list(ops)} the version decodes as {dec.netqasm_version}", case)
+    if list(dec.instructions) != model_instrs:
+        add_violation(part, f"history/{flav}/instructions", f"after {list(ops)} the subroutine holds {[str(i) for i in model_instrs]} "
+                      f"but its bytes decode to {[str(i) for i in dec.instructions]}", case)
+
+
+def shard_history(shard):
+    flav, first, depth = shard
+    part = new_part()
+    n = 0
+    for d in range(0, depth):
+        for rest in itertools.product(HIST_OPS, repeat=d):
+            n += 1
+            run_history(flav, (first,) + rest, part)
+    part["evals"] += n
+    part["distinct"] += n
+    count(part, "histories", n)
+    count(part, f"history-depth/{depth}")
+    if first == "bytes":
+        add_sample(part, {"flavour": flav, "history": ["bytes", "app=65535", "bytes"], "oracle": "final bytes decode to the final object state"})
+    return part
+
+
 def _dispatch(shard):
     kind = shard[0]
     return {"table": lambda s: shard_table(s[1]), "instr": lambda s: shard_instr(s[1:]),
-            "header": lambda s: shard_header(s[1:]), "seq": lambda s: shard_seq(s[1:])}[kind](shard)
+            "header": lambda s: shard_header(s[1:]), "seq": lambda s: shard_seq(s[1:]),
+            "history": lambda s: shard_history(s[1:])}[kind](shard)
 
 
 def run(ctx):
     limit = 70000 if ctx.tier == "quick" else 2 ** 22 + 1
     shards: List[Any] = []
+    hist_depth = 3 if ctx.tier == "quick" else 5
     for flav in FLAVOURS:
         shards.append(("table", flav))
         for c in codec.live_classes(flav):
@@ -232,6 +320,8 @@ def run(ctx):
         shards.append(("seq", flav, None))
         for i in range(nreps):
             shards.append(("seq", flav, i))
+        for op in HIST_OPS:
+            shards.append(("history", flav, op, hist_depth))
     ctx.pmap(_dispatch, shards, chunksize=2)
     for flav in FLAVOURS:
         ctx.require(f"classes/{flav}", 30)
@@ -239,11 +329,15 @@ def run(ctx):
     ctx.require("header-cases", 3 * 65536 * 6)
     ctx.require("sequences", 1000)
     ctx.require("product-points", 10000)
+    ctx.require("histories", 3 * len(HIST_OPS) * (1 + len(HIST_OPS) + len(HIST_OPS) ** 2))
+    ctx.extra["history_depth"] = hist_depth
     ctx.extra["tier_product_limit"] = limit
 
 
 def replay(case, part):
-    if "items" in case:
+    if "history" in case:
+        run_history(case["flavour"], case["history"], part)
+    elif "items" in case:
         items = [(m, [tuple(x) if isinstance(x, list) else x for x in lv]) for m, lv in case["items"]]
         check_case(case["flavour"], items, case["app_id"], tuple(case["version"]), part)
     else:
